@@ -100,6 +100,7 @@ impl C16 {
     fn gen_project(&self, t: &mut Tape) -> Vec<PFile> {
         let n = 2 + t.choice(5);
         let mut files: Vec<PFile> = vec![];
+        let mut needs_broken: Vec<String> = vec![];
         let stems = ["a", "b", "main", "lib", "conf"];
         for i in 0..n {
             let stem = stems[t.choice(stems.len())];
@@ -117,6 +118,16 @@ impl C16 {
                     let mut s = format!("let v = {};\nlet f = func (x) => x + v;\nlet m = module {{k = 1}} => (r) {{ let r = mod.k + {}; }};\n", v, v);
                     if out {
                         s.push_str(&format!("out json {{lib = v, from = \"{}\"}};\n", rel));
+                    }
+                    if t.chance(1, 5) {
+                        // an import that is never evaluated but has to be linked: of a file that is
+                        // not there, or of one that does not parse
+                        if t.chance(1, 2) {
+                            s.push_str("let lazy = func () => import \"./not_there.ucg\";\n");
+                        } else {
+                            s.push_str("let lazy = func () => import \"./zz_broken.ucg\";\n");
+                            needs_broken.push(rel.clone());
+                        }
                     }
                     (s, out, "library")
                 }
@@ -145,6 +156,15 @@ impl C16 {
                 _ => (format!("let v = {};\nout json {{v = v}};\nlet boom = 1 / (v - v);\n", v), true, "runtime-error-after-out"),
             };
             files.push(PFile { rel, src, has_out, kind: kname.to_string() });
+        }
+        // the unparsable files the lazy imports name, next to their importers (never built themselves:
+        // the name does not end in .ucg for the recursive build... it does, so it is part of the project)
+        for r in needs_broken {
+            let dir = if r.starts_with("sub/") { "sub/" } else { "" };
+            let rel = format!("{}zz_broken.ucg", dir);
+            if !files.iter().any(|f| f.rel == rel) {
+                files.push(PFile { rel, src: "let broken = = 1;\n".to_string(), has_out: false, kind: "syntax-error".to_string() });
+            }
         }
         files
     }
@@ -205,6 +225,14 @@ impl C16 {
                     o.fail("C16/file-fails-in-batch", ctx(format!("{} builds alone but fails in this invocation", f.rel)));
                     return false;
                 }
+                if !base[i].ok {
+                    // a file that fails alone leaves the same artifact (usually none) in a batch
+                    let art = artifact_of(dir, f);
+                    if art != base[i].artifact {
+                        o.fail("C16/failing-file-artifact-differs", ctx(format!("{} fails when built alone but its artifact differs in this invocation\nalone: {:?}\nbatch: {:?}", f.rel, base[i].artifact.as_ref().map(|b| String::from_utf8_lossy(b).into_owned()), art.as_ref().map(|b| String::from_utf8_lossy(b).into_owned()))));
+                        return false;
+                    }
+                }
                 if base[i].ok {
                     let art = artifact_of(dir, f);
                     if art != base[i].artifact {
@@ -238,6 +266,27 @@ impl C16 {
                     return o;
                 }
             }
+        }
+        // the same batch from a directory below the project, every argument spelled with ../
+        if let Some(ord) = orders.first() {
+            let dir = crate::ucgrun::new_scratch_dir("c16u");
+            write_project(&dir, files);
+            let below = dir.join("zz_cwd");
+            std::fs::create_dir_all(&below).expect("mkdir");
+            let args: Vec<String> = ord.iter().map(|i| format!("../{}", files[*i].rel)).collect();
+            let mut a = vec!["build".to_string()];
+            a.extend(args.iter().cloned());
+            let r = cli::run_ucg(&cli::Cmd { args: a, cwd: &below, env: vec![], home: &self.home, timeout: std::time::Duration::from_secs(60), stdin: None });
+            if !r.timed_out {
+                // diagnostics name the path as spelled: compare through the canonical directory
+                let shown = below.join("..");
+                let okay = check_run(&mut o, &shown, &args, &r, "from a directory below, arguments spelled with ../");
+                if !okay {
+                    let _ = std::fs::remove_dir_all(&dir);
+                    return o;
+                }
+            }
+            let _ = std::fs::remove_dir_all(&dir);
         }
         // recursive form
         {
